@@ -73,8 +73,8 @@ type Replica struct {
 	term  uint64 // last HardState.Term emitted / restored
 	hsCur pb.HardState
 
-	leaderMsgs      int  // MsgApp/MsgHeartbeat/MsgSnap stepped in since the last StepNode
-	removedAsNonLdr bool // applied a RemoveNode in its last Ready while not leader
+	leaderMsgs      int          // MsgApp/MsgHeartbeat/MsgSnap stepped in since the last StepNode
+	removedAsNonLdr bool         // applied a RemoveNode in its last Ready while not leader
 	stepConf        pb.ConfState // configuration in effect when the current Ready was produced
 	stepConfKnown   bool
 	persistedCommit uint64
@@ -123,25 +123,25 @@ type Sim struct {
 	viol    *Violation
 	harness error // harness-level problem: the schedule is inconclusive
 
-	propSeq        int
-	nextID         uint64
-	churn          bool // membership change requested after the prologue
-	prologueDone   bool
-	removalsAsked  map[uint64]bool
-	newestConf     pb.ConfState
-	newestConfAt   uint64
-	settled        bool
-	settleRounds   int
-	stuck          bool
-	faultSeen      bool // a drop/dup/reorder was delivered
-	fps            map[uint64]struct{}
-	crashCases     map[string]bool // "p3/leader" cases followed by restart (C03)
-	pendingCase    map[uint64]string
-	snapInstallN   int
-	truncN         int
-	rootCause      string // classifier result appended to C02/C03 signatures
-	check          string // the check whose monitor set reports ("" = all)
-	foreign        map[string]bool
+	propSeq       int
+	nextID        uint64
+	churn         bool // membership change requested after the prologue
+	prologueDone  bool
+	removalsAsked map[uint64]bool
+	newestConf    pb.ConfState
+	newestConfAt  uint64
+	settled       bool
+	settleRounds  int
+	stuck         bool
+	faultSeen     bool // a drop/dup/reorder was delivered
+	fps           map[uint64]struct{}
+	crashCases    map[string]bool // "p3/leader" cases followed by restart (C03)
+	pendingCase   map[uint64]string
+	snapInstallN  int
+	truncN        int
+	rootCause     string // classifier result appended to C02/C03 signatures
+	check         string // the check whose monitor set reports ("" = all)
+	foreign       map[string]bool
 }
 
 var nextGid uint32
